@@ -50,23 +50,42 @@ Definition dropped_link (anc : bytes -> bytes -> bool) (p : bytes) (c : tree) : 
   | _ => false
   end.
 
-(* [skip]: true for the unfiltered listing (getContents), false for getFilteredContents (no such test there) *)
-Fixpoint observe_gen (anc : bytes -> bytes -> bool) (skip : bool) (p : bytes) (t : tree) : vtree :=
+(* does stat() of this object succeed? *)
+Fixpoint resolves (t : tree) : bool :=
+  match t with
+  | Missing => false
+  | Link _ _ t' => resolves t'
+  | _ => true
+  end.
+
+(* [skip]: true for the unfiltered listing (getContents: directory_iterator(path, ec, follow_symlinks = false), with
+   the ancestor test), false for getFilteredContents (no such test there).
+   [trunc]: getFilteredContents iterates with follow_symlinks = true and "it != end && !ec": the iterator stats each
+   entry as it reaches it, so the first entry whose stat fails (a dangling link) ends the loop before it is pushed:
+   that entry and everything after it in directory order is not listed. *)
+Fixpoint observe_gen (anc : bytes -> bytes -> bool) (trunc : bool) (skip : bool) (p : bytes) (t : tree) : vtree :=
   match t with
   | Missing => VMissing
   | File i => VNode i []
-  | Link _ _ t' => observe_gen anc skip p t'
+  | Link _ _ t' => observe_gen anc trunc skip p t'
   | Dir i cs =>
     VNode i ((fix go (l : list (bytes * tree)) : list (bytes * vtree) :=
                 match l with
                 | [] => []
-                | (n, c) :: l' => if skip && dropped_link anc p c then go l'
-                                  else (n, observe_gen anc skip (path_append p n) c) :: go l'
+                | (n, c) :: l' =>
+                  if skip then (if dropped_link anc p c then go l'
+                                else (n, observe_gen anc trunc skip (path_append p n) c) :: go l')
+                  else if trunc && negb (resolves c) then []
+                  else (n, observe_gen anc trunc skip (path_append p n) c) :: go l'
                 end) cs)
   end.
 
-Definition observe := observe_gen anc_repaired.
-Definition observe_unrepaired := observe_gen anc_unrepaired.
+(* the code as it is *)
+Definition observe := observe_gen anc_repaired true.
+(* before the repair of the ancestor test *)
+Definition observe_unrepaired := observe_gen anc_unrepaired true.
+(* what getFilteredContents would see with follow_symlinks = false *)
+Definition observe_untruncated := observe_gen anc_repaired false.
 
 (* ------------------------------------------------------------------ ordering of a listing *)
 
